@@ -98,6 +98,21 @@ def opScan (args : List W) : String :=
     | _, _, _, _, _ => "bad-decode"
   | _ => "bad-arity"
 
+/-- `i1.coschain ((id ign content)…) host css js generic psl`: model = storage scan with the modelled parser →
+    cosmetic lookup table → `Match`; spec = `specCosmetic` over the rules parsed line by line. -/
+def opCosChain (args : List W) : String :=
+  match args with
+  | [ls, host, css, js, gen, psl] =>
+    match UF.Ops.decRLists false ls, host.bytes?, css.bool?, js.bool?, gen.bool?, decPslTable psl with
+    | some lists, some host, some css, some js, some gen, some psl =>
+      if !storageOKB lists then "ood ood" else
+      let px := UF.Ops.mkParseExt psl [] [] [] [] []
+      let t := CosTable.build (storageCosRules px lists)
+      UF.Ops.B.outSel (t.matchHost px.ext host css js gen) ++ " " ++
+        UF.Ops.B.outSel (specCosmetic px.ext (cosRulesOf (specRules px lists)) host css js gen)
+    | _, _, _, _, _, _ => "bad-decode"
+  | _ => "bad-arity"
+
 end UF.Ops.I1
 
 namespace UF.Ops
@@ -107,6 +122,7 @@ def dispatchI1 (op : String) (args : List W) : Option String :=
   | "i1.chain" => some (I1.opChain args)
   | "i1.dnschain" => some (I1.opDnsChain args)
   | "i1.scan" => some (I1.opScan args)
+  | "i1.coschain" => some (I1.opCosChain args)
   | _ => none
 
 end UF.Ops
